@@ -20,6 +20,12 @@ DUSTY = 20000          # a small coin (effective amount 12600 at 50 dewies/byte)
 ALL_STRATEGIES = ['sqlite', 'prefer_confirmed', 'only_confirmed', 'standard', 'branch_and_bound',
                   'closest_match', 'random_draw']
 MAX_STEPS = 20000
+STOP_AFTER_VIOLATING = 25      # a case is not explored further once this many of its executions violated
+MAX_EXECUTIONS_PER_CASE = 150000   # safety cap (reported as capped; never reached on the unchanged tree)
+
+
+class StopCase(Exception):
+    pass
 
 
 # ------------------------------------------------------------------------------------------------
@@ -569,7 +575,7 @@ def gen_cases(tier):
         add(3, None, two, ov3[:4])
         add(3, ['n-1_equal', 'n_equal', 'pairwise'], two, [mixed3], late=2)
         add(3, ['n-1_equal', 'pairwise'], two, [['release'] * 3], late=2)
-        add(3, ['n-1_equal', 'n_equal', 'pairwise'], two, [['hold'] * 3], cancel=0)
+        add(3, ['n-1_equal', 'n_equal'], two, [['hold'] * 3], cancel=0)
         # ---- N = 4
         add(4, None, three, [['release'] * 4])
         add(4, ['n-1_equal', 'pairwise'], two, [['hold', 'hold', 'release', 'release']])
@@ -583,26 +589,27 @@ def gen_cases(tier):
         add(2, None, ALL_STRATEGIES, ov2)
         add(2, None, four, ov2, late=1)
         add(2, None, two, ov2, cancel=0)
-        add(2, None, two, [['hold', 'hold'], ['release', 'bcast_fail'], ['hold', 'release']], cancel=0, late=1)
+        add(2, None, two, [['hold', 'hold'], ['release', 'bcast_fail']], cancel=0, late=1)
         add(3, None, four, ov3)
         add(3, None, two, [mixed3, ['release'] * 3, ['hold'] * 3, ['release', 'release', 'bcast_fail']], late=2)
-        add(3, ['n-1_equal', 'n_equal', 'pairwise'], two, [mixed3], cancel=0)
+        add(3, ['n-1_equal', 'pairwise'], two, [mixed3], cancel=0)
         add(3, None, two, [['hold'] * 3, ['release'] * 3], cancel=0)
         add(3, ['n-1_equal'], two, [['release'] * 3], cancel=0, late=2)
-        add(4, None, four, [['release'] * 4, ['hold'] * 4, ['bcast_fail'] * 4])
+        add(4, None, four, [['release'] * 4, ['hold'] * 4])
+        add(4, ['n-1_equal', 'pairwise'], two, [['bcast_fail'] * 4])
         add(4, ['n-1_equal', 'n_equal', 'pairwise'], two, [mixed4])
         add(4, ['n-1_equal', 'pairwise'], two, [['release'] * 4], late=3)
         add(4, ['n-1_equal'], two, [['release'] * 4], cancel=0)
         add(6, None, two, [['release'] * 6, mixed3 * 2], bound=2)
         add(6, ['n-1_equal', 'pairwise'], two, [mixed3 * 2], cancel=0, bound=1)
         add(12, None, two, [['release'] * 12], bound=2)
-        add(12, ['n-1_equal', 'pairwise', 'big+dust'], two, [mixed3 * 4], bound=1)
+        add(12, ['n-1_equal', 'big+dust'], two, [mixed3 * 4], bound=1)
         add(12, ['n-1_equal'], two, [mixed3 * 4], cancel=0, bound=1)
     # ---- the same exploration without state pruning must agree (validation of the pruning)
     add(2, ['n_equal', 'pairwise'] if quick else None, two, [['hold', 'release']], cross_check=True)
     add(2, ['n_equal'], ['prefer_confirmed'] if quick else two, [['bcast_fail', 'bcast_fail']], cross_check=True)
     add(2, ['n-1_equal'], two, [['release', 'bcast_fail']], late=1, cross_check=True)
-    add(2, ['n_equal'], ['prefer_confirmed'] if quick else two, [['hold', 'release']], cancel=0, cross_check=True)
+    add(2, ['pairwise'] if quick else ['n_equal'], ['prefer_confirmed'] if quick else two, [['hold', 'release']], cancel=0, cross_check=True)
     if not quick:
         add(3, ['n-1_equal'], two, [mixed3], cross_check=True)
         add(3, ['pairwise'], ['sqlite'], [['release'] * 3], late=2, cross_check=True)
@@ -613,7 +620,7 @@ def gen_cases(tier):
 # exploration of one case
 # ------------------------------------------------------------------------------------------------
 
-def explore(case, prune, res=None):
+def explore(case, prune, stop_early=True):
     """All choice sequences of the case (within its deviation bound).  -> dict of what was seen."""
     from vf.explore import dfs_deviation
     visited = set() if prune else None
@@ -650,9 +657,19 @@ def explore(case, prune, res=None):
                 seen['viol_records'].append(rec)
             sg, wh, chs, n = seen['violations'][k]
             seen['violations'][k] = (sg, wh, chs, n + 1)
+        if obs['violations']:
+            seen['violating'] += 1
+            if stop_early and seen['violating'] >= STOP_AFTER_VIOLATING:
+                raise StopCase()
 
-    out = dfs_deviation(run, bound=case['bound'], on_result=on_result)
-    seen['capped'] = out['capped']
+    seen['violating'] = 0
+    seen['stopped'] = False
+    try:
+        out = dfs_deviation(run, bound=case['bound'], on_result=on_result, max_executions=MAX_EXECUTIONS_PER_CASE)
+        seen['capped'] = out['capped']
+    except StopCase:
+        seen['capped'] = False
+        seen['stopped'] = True
     return seen
 
 
@@ -668,13 +685,15 @@ def explore_case(case, res, cross_check=False):
     res.setmax('max_choice_points', seen['max_points'])
     res.setmax('max_schedules_per_case', seen['executions'])
     for name, n in seen['failed'].items():
-        res.tally(f'build_failed_with_{name}_(judged_by_C03)', n)
+        res.tally(f'build_failed_with_{name}_(not_judged_by_C14)', n)
     for k, n in seen['built'].items():
         res.tally('builds_succeeded_%d_of_%d' % (k, case['n']), n)
     if seen['loop_exc']:
         res.tally('loop_exception_contexts', seen['loop_exc'])
     if seen['capped']:
         res.count('capped')
+    if seen['stopped']:
+        res.count('cases_not_explored_further_after_%d_violating_executions' % STOP_AFTER_VIOLATING)
     for k, (sig, what, choices, n) in seen['violations'].items():
         for _ in range(n):
             res.violation(sig, what, {'case': case, 'choices': choices})
@@ -685,7 +704,7 @@ def explore_case(case, res, cross_check=False):
     # determinism self-check: first, last and violating choice sequences are replayed twice without the
     # explorer and without pruning; the running observation digest must agree at the recorded event count
     done = set()
-    for choices, digest, events in seen['records'] + [seen['last']] + seen['viol_records'][:3]:
+    for choices, digest, events in seen['records'] + ([seen['last']] if 'last' in seen else []) + seen['viol_records'][:3]:
         if tuple(choices) in done:
             continue
         done.add(tuple(choices))
@@ -698,9 +717,9 @@ def explore_case(case, res, cross_check=False):
                 got = obs['digest'] if digest == obs['digest'] else got
             if got != digest and obs['digest'] != digest:
                 res.error(f'non-deterministic replay: case {case!r:.300} choices {choices}')
-    if cross_check:
+    if cross_check and not seen['stopped']:
         # the same case without state pruning must reach the same states, outcomes and verdicts
-        full = explore(case, prune=False)
+        full = explore(case, prune=False, stop_early=False)
         res.count('pruning_cross_checks')
         res.count('executions', full['executions'])
         res.count('transitions', full['events'])
